@@ -9,6 +9,7 @@ pub mod checks;
 pub mod exec;
 pub mod explore;
 pub mod fabric;
+pub mod histories;
 pub mod pool;
 pub mod probe;
 pub mod report;
@@ -115,6 +116,10 @@ fn main() {
     let n_units = units.len();
     let mut total = pool::run_pool(&id, tier, units, jobs);
     let mut extra = check.finish(tier, &mut total);
+    if !total.violations.is_empty() {
+        // a violating tree legitimately lacks some outcome classes; the violations are the verdict
+        total.machinery_errors.retain(|e| !e.starts_with("vacuous"));
+    }
     extra.insert("units".into(), serde_json::json!(n_units));
     extra.insert("shim".into(), serde_json::json!(exec::shim_present()));
     let meta = check.meta(tier);
